@@ -47,6 +47,10 @@ func vfC37GenContent(r *vfRand, invalid bool) []byte {
 	if r.Chance(5) {
 		b.WriteString("\r\n")
 	}
+	if invalid && r.Chance(25) {
+		// a truncated multi-byte sequence at the very end of the file
+		b.WriteString(r.Pick([]string{"\xc3", "\xe6", "\xe6\x97", "\xf0\x9f", "\xf0\x9f\x98"}))
+	}
 	return b.Bytes()
 }
 
@@ -224,7 +228,7 @@ func TestVerifC37(t *testing.T) {
 		class := []string{"conv", fmt.Sprintf("conv:stream=%d", stream), "conv:" + sb, fmt.Sprintf("conv:accepted=%v", aerr == nil),
 			fmt.Sprintf("conv:content-valid=%v", utf8.Valid(content)), fmt.Sprintf("conv:names-valid=%v", namesValid)}
 		vfCase(coq, vfKey("conv", string(content), ctags_), len(secs) >= 2,
-			class, map[string]any{"kind": "conv", "content": string(content), "tags": len(tags), "sections": fmt.Sprint(secs), "add_err": fmt.Sprint(aerr)})
+			class, map[string]any{"kind": "conv", "content": string(content), "content_hex": fmt.Sprintf("%x", content), "tags": len(tags), "sections": fmt.Sprint(secs), "add_err": fmt.Sprint(aerr)})
 	}
 
 	// ---- ShardBuilder.Add on arbitrary section lists (<= 8 sections: Go's sort.Sort is an insertion sort there,
@@ -253,6 +257,14 @@ func TestVerifC37(t *testing.T) {
 			}
 			pos = b
 			secs = append(secs, DocumentSection{Start: uint32(bounds[a]), End: uint32(bounds[b])})
+		}
+		if len(bounds) >= 3 && r.Chance(30) {
+			// a section among the last rune boundaries of the file
+			a := len(bounds) - 1 - r.Intn(3)
+			b := a + r.Intn(len(bounds)-a)
+			if uint32(bounds[a]) >= uint32(bounds[pos]) {
+				secs = append(secs, DocumentSection{Start: uint32(bounds[a]), End: uint32(bounds[b])})
+			}
 		}
 		mut := "none"
 		if len(secs) > 0 && r.Chance(60) {
@@ -315,7 +327,7 @@ func TestVerifC37(t *testing.T) {
 		}
 		vfCase(cApp("CAdd", cBytes(content), sl, cN(vfC37Verdict(aerr, apanic))), vfKey("add", string(content), ss), len(secs) >= 1,
 			[]string{"add", "add:mut=" + mut, "add:verdict=" + kind},
-			map[string]any{"kind": "add", "content": string(content), "sections": fmt.Sprint(secs), "add_err": fmt.Sprint(aerr)})
+			map[string]any{"kind": "add", "content": string(content), "content_hex": fmt.Sprintf("%x", content), "sections": fmt.Sprint(secs), "add_err": fmt.Sprint(aerr)})
 	}
 }
 
